@@ -691,19 +691,29 @@ class C03(Property):
     id = "C03"
     title = "Exported native value re-imports to an equal element"
     proof_module = "Proofs.C03"
-    level_text = ('Lean 4 theorem `reimport`: if set(x) returned True on an element (fresh, or in any state earlier set() calls '
-                  'built) and left it in state e, then set(e.value) on a fresh element of the schema rebuilds the same state e '
-                  '(hence equal .value, .u, ==, flatten()) for Dict/SparseDict under every policy, List/Array and table-driven '
-                  'leaf-likes; the returned flag of the second set() is not claimed. Hypothesis, localised to the leaves that '
-                  'occur in e: a fresh leaf-like of the same kind set with the leaf\'s exported value gets into the leaf\'s '
-                  'state (`leafStable`, a decidable function). It is not proved of the real scalars: the Lean runner and the '
-                  'harness evaluate it per generated case on the adapt table extracted from the real classes (tags '
-                  'thm-applies / thm-hyp-fails in the evidence); where it fails the case rests on the oracle alone. '
-                  '`reimport_true`: if those leaves also report True, so does the container. Negation witness without the '
-                  'hypothesis (KF-C03-a).')
+    level_text = ('Lean 4 theorem `reimport`: if set(x) returned True on an element in any state `cur` that conforms to the schema '
+                  '(`Shaped`: fresh, or with any history) and left it in state e, then set(e.value) on a fresh element of the schema '
+                  'rebuilds the same state e (hence equal .value, .u, ==, flatten()) for Dict/SparseDict under every policy, '
+                  'List/Array and table-driven leaf-likes; the returned flag of the second set() is not claimed. '
+                  '`reimport_history`: the same for an element built fresh and taken through any sequence of set() calls and item '
+                  'assignments anywhere in its tree (`Step`, run by the model: `shaped_history`); `reimport_observed`: from a state '
+                  'observed on the real element (after set_flat(), after a step that raised half-way) that passed the decidable check '
+                  '`shapedB` (`shapedB_iff`), followed by any further such history. The harness gives about 35% of the generated '
+                  'elements a history of 1-3 steps (set, set_flat, a member\'s own set, item assignment; valid, unadaptable and '
+                  'empty inputs) before the set(x) the property talks about; the model recomputes every step it runs, the set(x) '
+                  'and the re-import. Hypothesis, localised to the leaves that occur in e: a fresh leaf-like of the same kind set '
+                  'with the leaf\'s exported value gets into the leaf\'s state (`leafStable`, a decidable function). It is not '
+                  'proved of the real scalars: the Lean runner and the harness evaluate it per generated case on the adapt table '
+                  'extracted from the real classes (tags thm-applies / thm-hyp-fails in the evidence); where it fails the case '
+                  'rests on the oracle alone. `reimport_true`: if those leaves also report True, so does the container. Negation '
+                  'witness without the hypothesis (KF-C03-a).')
     level_note = ("Trusted: Lean kernel + 3 standard axioms; model Flatland/C03.lean (Dict.set incl. to_pairs unpacking of any "
                   "iterable of 2-item iterables, policies, state kept when to_pairs raises, Sequence.set, .value) tied to "
-                  "/repo/src by differential correspondence on every case; what a scalar / JoinedString / DateYYYYMMDD in a "
+                  "/repo/src by differential correspondence on every case, including every step of the element's history that the "
+                  "model runs (member set() and item assignment on Dict / SparseDict / List / Array, with the KeyError / IndexError / "
+                  "TypeError of the lookups); set_flat() is not modelled here (C01's subject): the state it leaves, and the state a "
+                  "set() that raised half-way leaves, are inputs taken from the real element and checked with `shapedB`; "
+                  "what a scalar / JoinedString / DateYYYYMMDD in a "
                   "given state makes of a native is an input table computed from the real classes in isolation, and the "
                   "theorem's leaf hypothesis is a statement about that table (re-adapting the exported NATIVE value; not "
                   "C04/C18's laws, which are about re-setting the text) checked per case, not proved; the oracle states the "
@@ -716,6 +726,13 @@ class C03(Property):
         "Flatland.C03.Proofs.reimport_fresh",
         "Flatland.C03.Proofs.reimport_true",
         "Flatland.C03.Proofs.reimport_value",
+        "Flatland.C03.Proofs.reimport_history",
+        "Flatland.C03.Proofs.reimport_observed",
+        "Flatland.C03.Proofs.shaped_history",
+        "Flatland.C03.Proofs.shaped_applyStep",
+        "Flatland.C03.Proofs.shaped_updateAt",
+        "Flatland.C03.Proofs.shaped_itemAssign",
+        "Flatland.C03.Proofs.shapedB_iff",
         "Flatland.C03.Proofs.shaped_set",
         "Flatland.C03.Proofs.shaped_blank",
         "Flatland.C03.Proofs.rebuilds_of_shaped",
@@ -728,6 +745,8 @@ class C03(Property):
         "computed from the real classes in isolation)",
         "the theorem's hypothesis `leafStable` (the leaves occurring in the first element re-adapt their exported value to their own "
         "state) is evaluated on those tables per case, in Lean and in Python, not proved for all inputs",
+        "the state set_flat() leaves (and a set() that raised half-way) is read from the real element and given to the model, which "
+        "checks `shapedB` on it",
     ]
     assumptions = [
         "MultiValue excluded (the property says so)",
@@ -735,14 +754,22 @@ class C03(Property):
         "2-character texts; wrong arity and non-iterable items), namedtuples, repeated keys, lists / tuples / generators for sequences, "
         "texts, scalar natives, None; other iterables and dict-likes (custom classes with keys()/items()) are not generated",
         "field names of a Dict are texts, distinct (Dict.of enforces it); 'strict' policy not combined with SparseDict",
+        "the element's history before the set() of the property: set() on the element, set_flat() ('_' separator, keys from the "
+        "schema's flattened names), a member's own set() at any path, item assignment with native values on Dict / SparseDict / "
+        "List / Array members at any path (non-negative indexes); not generated: update(), set_default(), set_by_object(), "
+        "del / pop / insert / append / slices (C08-C10's subject), assignment of Element instances, negative indexes",
+        "set_flat() steps and steps that raised are not run by the model: the state of the real element after them is an input of "
+        "the model, checked with `shapedB` (evidence tags cur-shaped / cur-unshaped); the theorems speak about the set(x) that "
+        "follows and the re-import",
         "the leaf hypothesis of `reimport` is measured, not proved: on the generated cases where set() returned True it holds for "
         "about 99% (evidence tags thm-applies / thm-hyp-fails); the cases where it fails are the KF-C03-a inputs (pruning JoinedString "
         "holding an empty member text), where the oracle reports the defect",
     ]
     rule = ("random schemas (as C01, MultiValue replaced by Array, every Dict policy, 'subset' dominant) x inputs in every form the "
             "quantifier names (dict, pair lists with list / tuple / 2-character-text items, namedtuple, generator, partial key sets, "
-            "repeated keys, non-text keys, hostile shapes); non-trivial = set() returned True on a container holding at least 2 leaves; "
-            "distinct = canonical case JSON")
+            "repeated keys, non-text keys, hostile shapes); about 35% of the elements have a history of 1-3 steps before that set() "
+            "(set / set_flat / member set() / item assignment, with valid, unadaptable and empty inputs; then often a PARTIAL set()); "
+            "non-trivial = set() returned True on a container holding at least 2 leaves; distinct = canonical case JSON")
     quick_n = 25000
     thorough_n = 150000
 
